@@ -145,6 +145,10 @@ def subject(case):
     c = 2 if kind == "muse" else (spec.get("n_columns", 1) if kind == "cec" else 1)
     t = max(24, panelpool.min_timepoints(kind))
     X3 = panelpool.panel_values(case["seed"], 8, c, t)
+    if case.get("as_frame"):
+        # exact copies with different labels: distance ties that are broken at random
+        X3[1] = X3[0]
+        X3[3] = X3[2]
     X = panelpool.to_nested(X3) if case["container"] != "numpy3d" else X3
     y = np.linspace(0, 1, 8) if kind == "tsfr" else panelpool.labels_for(8, "str")
     Xa3 = (X3 + panelpool.panel_values(case["seed"] + 11, 8, c, t)) / 2.0
